@@ -155,7 +155,7 @@ def worker(args):
         os.chdir(tmp)
         problems = []
         try:
-            world.configure((('A', 'G1', 'L1', 'plain'),), extra_settings={'script_path': 'scripts', 'manifest_file_name': 'manifest.json'})
+            world.configure((('A', 'G1', 'L1', 'plain'), ('A z', 'G1', 'L1', 'multizone', 2), ('m A', 'G2', 'L1', 'matrix', 0, 1, 2)), extra_settings={'script_path': 'scripts', 'manifest_file_name': 'manifest.json'})
             os.makedirs(os.path.join(tmp, 'scripts'), exist_ok=True)
             ManualThread.pending = []
             StubJob.log = []
